@@ -27,8 +27,9 @@ def plan(ctx: Ctx) -> list:
               1, 'preemption', 60 if q else 300))
     P.append(('line/remote/preempt<=2',
               [boss_spec('remote', t) for t in
-               (('submit', 'seq2') if q else line1)],
-              2, 'preemption', 60 if q else 900))
+               (('submit', 'seq2', 'mapnext2', 'map2', 'rev2')
+                if q else line1)],
+              2, 'preemption', 100 if q else 900))
     if not q:
         P.append(('line/local/preempt<=2',
                   [boss_spec('local', t) for t in ('seq2', 'map2')]
